@@ -266,6 +266,13 @@ def gen(seed, tier):
     cases.append("D " + hx(b"d1:k" * 3000))
     cases.append("D " + hx(b"l" * 3000 + b"e" * 3000))
     stats["D_depth"] += 3
+    # far beyond any depth limit, through dictionaries and mixed containers: a decoder that loses its depth count
+    # on some path (e.g. resets it at every dictionary level) runs out of stack here instead of rejecting
+    # (the real decoders need 1-2 KB of stack per level in the instrumented build: 12000 levels exceed the 8 MB stack)
+    cases.append("D " + hx(b"d1:k" * 12000))
+    cases.append("D " + hx(b"ld1:k" * 7000))
+    cases.append("D " + hx(b"d1:kl" * 7000))
+    stats["D_depth"] += 3
     # long strings: the stream reader reads in 64 KiB chunks, the writers flush every 1024 bytes
     for n in (1023, 1024, 1025, 2049, 65535, 65536, 65537, 131072, 131073, 200001):
         body = bytes((i * 7 + (i >> 8) * 13 + n) & 0xff for i in range(n))
